@@ -122,7 +122,9 @@ func GetSDRRepositoryInfo(v *ipmi.GetSDRRepositoryInfoRsp) []byte {
 		bit(v.SupportsPartialAdd, 2)|bit(v.SupportsReserve, 1)|bit(v.SupportsGetAllocationInformation, 0))
 }
 
-func ReserveSDRRepository(v *ipmi.ReserveSDRRepositoryRsp) []byte { return le16(uint16(v.ReservationID)) }
+func ReserveSDRRepository(v *ipmi.ReserveSDRRepositoryRsp) []byte {
+	return le16(uint16(v.ReservationID))
+}
 
 // GetSDR: next record ID + record data.
 func GetSDR(next ipmi.RecordID, data []byte) []byte {
